@@ -79,6 +79,10 @@ def run(ctx: Context) -> None:
     # (update on every iteration, once) - the product analysis takes the calibrate loop as it finds it, this rule pins it (shared with C09-R1)
     from . import c09
     ctx.rule(c09.r1_calibrate_pairing)
+    # the action put on the queue indexes the line-up: the agent only ever returns valid action indices (C19-R3), else get_next_sampler raises in the
+    # calibration thread while the agent waits for an outcome
+    from . import c19
+    ctx.rule(c19.policy)
     thorough = ctx.tier == "thorough"
     pl = plans(3, 3) if thorough else plans(2, 2)
     ctx.rule(run_product, ("C10", "C09"), False, pl, "fault-free")
